@@ -53,7 +53,7 @@ def alphabet():
     # the action worth exactly 1, so pruned and unpruned runs differ although "nothing can be pruned" (KF-C04-1 at work)
     lp = dict(rewards=[0, 2, 1, 0], players=[P1, PR, PR, PR],
               transition_list=[[("a", 3), ("ab", 1)], [(1, 2)], [(0.5, 2), (0.5, 3)], [(1, 3)]], final_states=[3])
-    # descriptions may legally carry their own 'prune_states' entry (run_games itself leaves one behind in every game it has run)
+    # descriptions may legally carry their own 'prune_states' entry (the batch runner must neither follow it nor change it; before 367f1f8 run_games left prune_states=False behind in every game it had run)
     u2["prune_states"] = False
     d["prune_states"] = True
     # malformed: no final state (the ValueError comes from a built-in, not from an explicit check)
